@@ -43,6 +43,20 @@ class Unsupported(Exception):
     """Outside the bounds of the machine; the function is reported as not analysed."""
 
 
+class Cut(Exception):
+    """The path reached a stated exploration bound (call depth, steps): it is abandoned and
+    counted, the other paths of the function are still analysed (bounded model checking)."""
+
+
+class NeedFork(Exception):
+    """A pointer offset / ap increment is symbolic: the machine enumerates its feasible values
+    with the solver and forks."""
+
+    def __init__(self, expr):
+        super().__init__("symbolic value needs enumeration")
+        self.expr = expr
+
+
 class Con:
     __slots__ = ("kind", "e", "info")
 
@@ -79,6 +93,8 @@ class Path:
         self.hstate = {}
         self.pc = self.ap = self.fp = 0
         self.used = {}  # builtin segment -> set of offsets written
+        self.known = {}  # z3 expr id -> concrete value fixed by an enumeration fork
+        self.hints_done = None  # (pc, visit) whose hints already ran (instruction re-executed)
 
     def clone(self):
         p = Path()
@@ -94,6 +110,8 @@ class Path:
         p.hstate = dict(self.hstate)
         p.pc, p.ap, p.fp = self.pc, self.ap, self.fp
         p.used = {k: set(v) for k, v in self.used.items()}
+        p.known = dict(self.known)
+        p.hints_done = self.hints_done
         p.entry_fp = getattr(self, 'entry_fp', 0)
         p.cur_visit = getattr(self, 'cur_visit', 0)
         return p
@@ -121,7 +139,7 @@ FSQRT = z3.Function("FSQRT", z3.IntSort(), z3.IntSort())
 
 
 class Limits:
-    def __init__(self, max_paths=512, max_steps=400000, max_depth=16, solver_ms=5000,
+    def __init__(self, max_paths=512, max_steps=400000, max_depth=8, solver_ms=5000,
                  max_jump_targets=64, explore_s=60):
         self.max_paths, self.max_steps, self.max_depth = max_paths, max_steps, max_depth
         self.solver_ms, self.max_jump_targets = solver_ms, max_jump_targets
@@ -190,9 +208,9 @@ class Engine:
                 x, y = y, x
             if isinstance(y, Ptr):
                 raise Fail("ptr + ptr")
-            yv = self.as_concrete(y)
+            yv = self.as_concrete(y, p)
             if yv is None:
-                raise Unsupported("symbolic pointer arithmetic")
+                raise NeedFork(y)
             if yv > HALF_P:
                 yv -= P
             return Ptr(x.seg, x.off + yv)
@@ -224,9 +242,9 @@ class Engine:
                 raise Fail("pointer difference across segments")
             return (x.off - y.off) % P
         if isinstance(x, Ptr):
-            yv = self.as_concrete(y)
+            yv = self.as_concrete(y, p)
             if yv is None:
-                raise Unsupported("symbolic pointer arithmetic")
+                raise NeedFork(y)
             if yv > HALF_P:
                 yv -= P
             return Ptr(x.seg, x.off - yv)
@@ -289,11 +307,13 @@ class Engine:
         p.cons.append(Con("assume", z3.And(u >= 0, u < P, (u * zexpr(k)) % P == zexpr(d)), "fdiv"))
         return u
 
-    def as_concrete(self, x):
+    def as_concrete(self, x, p=None):
         if is_int(x):
             return x
         if isinstance(x, Ptr):
             return None
+        if p is not None and x.get_id() in p.known:
+            return p.known[x.get_id()]
         s = z3.simplify(x)
         if z3.is_int_value(s):
             return s.as_long() % P
@@ -553,6 +573,8 @@ class Engine:
                 done.append(("ret", p))
             except _Infeasible:
                 pass
+            except Cut as e:
+                done.append(("cut:" + str(e), p))
             except Fail as e:
                 done.append(("fail:" + str(e), p))
         return done
@@ -560,7 +582,7 @@ class Engine:
     def run_path(self, p, work):
         while True:
             if p.steps >= self.lim.max_steps:
-                raise Unsupported("step limit")
+                raise Cut("step limit")
             if (p.steps & 15) == 0:
                 import time as _t
                 if _t.time() > self.deadline:
@@ -576,13 +598,27 @@ class Engine:
             visit = p.visits.get(p.pc, 0)
             p.visits[p.pc] = visit + 1
             p.cur_visit = visit
-            for idx, h in enumerate(i["hints"]):
-                self.hint(p, h, idx)
-            p.trace.append((p.pc, p.ap - p.entry_fp, p.fp - p.entry_fp))
-            p.steps += 1
+            if p.hints_done != (p.pc, visit):
+                try:
+                    for idx, h in enumerate(i["hints"]):
+                        self.hint(p, h, idx)
+                except NeedFork:
+                    raise Unsupported("symbolic pointer in a hint operand")
+                p.hints_done = (p.pc, visit)
             npc = p.pc + i["size"]
             if k == "assert_eq":
-                self.do_assert_eq(p, b["a"], b["b"])
+                try:
+                    self.do_assert_eq(p, b["a"], b["b"])
+                except NeedFork as nf:
+                    # operands are evaluated before anything is written, so the instruction can
+                    # simply be re-executed on every fork
+                    p.visits[p.pc] = visit
+                    self.fork_values(p, nf.expr, work)
+                    continue
+            p.trace.append((p.pc, p.ap - p.entry_fp, p.fp - p.entry_fp))
+            p.steps += 1
+            if k == "assert_eq":
+                pass
             elif k == "add_ap":
                 v = self.res_operand(p, b["op"])
                 v = self.as_concrete(v) if v is not None and not isinstance(v, Ptr) else None
@@ -644,7 +680,7 @@ class Engine:
                 self.write(p, ("e", p.ap + 1), Ptr("prog", npc))
                 tgt = p.pc + d if b["rel"] else d
                 if len(p.callstack) >= self.lim.max_depth + 1:
-                    raise Unsupported("call depth limit")
+                    raise Cut("call depth limit")
                 p.callstack.append((tgt, p.ap + 2))
                 p.fp = p.ap + 2
                 p.ap += 2
@@ -667,6 +703,34 @@ class Engine:
             if i["inc_ap"]:
                 p.ap += 1
             p.pc = npc
+
+    def fork_values(self, p, expr, work):
+        """Enumerates the feasible values of a symbolic offset (solver-driven) and forks; p
+        continues with the last value. Each fork records the value in `known`."""
+        from solve import checked
+        vals = []
+        s = z3.Solver()
+        s.add(*p.exprs())
+        while len(vals) <= self.lim.max_jump_targets:
+            r = checked(s, self.lim.solver_ms)
+            self.stats["feasibility_queries"] += 1
+            if r == z3.unknown:
+                raise Unsupported("offset enumeration: solver unknown")
+            if r == z3.unsat:
+                break
+            v = s.model().eval(expr, model_completion=True).as_long()
+            vals.append(v)
+            s.add(expr != v)
+        if len(vals) > self.lim.max_jump_targets:
+            raise Unsupported("symbolic pointer arithmetic with too many feasible offsets")
+        if not vals:
+            raise _Infeasible()
+        for n, v in enumerate(vals):
+            q = p if n == len(vals) - 1 else p.clone()
+            q.cons.append(Con("branch", expr == v, ("offset", p.pc, v)))
+            q.known[expr.get_id()] = v % P
+            if q is not p:
+                work.append(q)
 
     def fork_jump_table(self, p, c, rel, insn, work):
         """jmp rel [cell] with a symbolic cell: enumerate the feasible targets with the solver."""
